@@ -26,7 +26,7 @@ WS4 = " \r\n\t"
 ARG_TOKENS = ["a", "b", "xyz", "0", "-", "=", "/", "~", "é", "λ", "\U0001F600", "\ud800", " ", "  ", "\t", "\n", "\r",
               '"', "'", '""', "''", "\\", "\\\\", "\\n", "\\t", "\\x22", "\\x41", "\\xZZ", "\\x4", "\\u00e9", "\\u12",
               "\\101", "\\7", "\\8", "\\777", "\\'", '\\"', "\\z", "\\N", "\\U0001F600", "\\U00110000", "\x0b", "\x0c",
-              "\u00a0", "\u2003", "\u3000", "\x85", "\x1c", "\u200b", "x22", "{", "}"]
+              "\u00a0", "\u2003", "\u3000", "\x85", "\x1c", "\u200b", "x22", "{", "}", "\"'", "'\"", "say \"it's\""]
 LINE_TOKENS = ["t.raw", "t.str", "t.two", "nope", " ", " ", " ", "  ", "\t", "\n", "\r", '"', "'", '"a b"', "'a b'", '"a"',
                "''", '""', "a", "b", "xy", '"t.raw"', "\x0b", "\u00a0", "\u3000", "\\n", "\\x22", "\\xZZ", "é", '"\t"',
                "'\"'", '"\'"', "\\", "a\tb", "\x1f", "\\N{DIGIT ONE}", "\\N{"]
